@@ -57,7 +57,7 @@ Definition buf_obs (b : buf) (B : Z) (e : obs) : obs :=
      o_beginWrite := B + Zn (widx b);
      o_kCheapPrepend := kCP;
      o_len := o_len e; o_initialSize := o_initialSize e; o_reserve := o_reserve e;
-     o_start := o_start e; o_end := o_end e; o_size := o_size e; o_n := o_n e;
+     o_start := o_start e; o_end := o_end e; o_size := o_size e; o_fd := o_fd e; o_n := o_n e;
      o_writable := o_writable e; o_readable := o_readable e; o_iovcnt := o_iovcnt e; o_x := o_x e; o_result := o_result e |}.
 
 (* only the three private members (what the bodies of the size observers may read) *)
@@ -312,7 +312,10 @@ Fixpoint exec_stmt (st : stmt) (b : buf) (L : obs) {struct st} : outc :=
       end
   | SIf c th el => if c v then exec_list th b L else exec_list el b L
   | SRet e => Ret b L (e v)
-  | SOther _ => Done b L
+  | SRetOther => Ret b L 0                            (* a return ends the function *)
+  | SLetCall _ _ _ => Done b L                        (* the callee's result is whatever L already holds under that name *)
+  | SSwapWith _ m => Stuck m                          (* two buffers: not interpreted (swap_tree is pinned by its shape) *)
+  | SOther _ => Done b L                              (* no side effect on the indices / buffer_: guaranteed by the generator *)
   end.
 
 Fixpoint exec (l : list stmt) (b : buf) (L : obs) {struct l} : outc :=
@@ -606,28 +609,100 @@ Qed.
 
 (* ---- shape of the bodies that move data (the SOther entries are not interpreted: their presence and place
    are compared syntactically) ------------------------------------------------------------------------------ *)
+Definition nat_str (n : nat) : string :=
+  match n with O => "0" | S O => "1" | S (S O) => "2" | S (S (S O)) => "3" | _ => "many" end%string.
 Fixpoint shape1 (st : stmt) : list string :=
   let shapes := fix shapes (l : list stmt) : list string :=
     match l with [] => [] | x :: t => (shape1 x ++ shapes t)%list end in
   match st with
   | SOther w => [("other:" ++ w)%string]
-  | SCall f _ => [("call:" ++ f)%string]
+  | SCall f a => [("call:" ++ f ++ "/" ++ nat_str (List.length a))%string]
   | SSet m _ => [("set:" ++ m)%string]
   | SAssert _ => ["assert"%string]
   | SLet x _ _ => [("let:" ++ x)%string]
   | SHavoc x => [("havoc:" ++ x)%string]
   | SRet _ => ["ret"%string]
+  | SRetOther => ["return"%string]
+  | SLetCall x f a => [("let:" ++ x ++ "=" ++ f ++ "/" ++ nat_str (List.length a))%string]
+  | SSwapWith o m => [("swap:" ++ m ++ "<->" ++ o ++ "." ++ m)%string]
   | SIf _ th el => ("if{"%string :: shapes th ++ "}else{"%string :: shapes el ++ ["}"%string])%list
   end.
 Fixpoint shape (l : list stmt) : list string :=
   match l with [] => [] | x :: t => (shape1 x ++ shape t)%list end.
 
-Lemma tree_shapes :
-  shape makeSpace_tree = ["if{"; "call:buffer.resize"; "}else{"; "assert"; "let:readable"; "other:copy"; "set:readerIndex";
-                          "set:writerIndex"; "assert"; "}"]%string /\
-  shape prepend_tree = ["assert"; "set:readerIndex"; "havoc:d"; "other:copy"]%string /\
-  shape append2_char_tree = ["call:ensureWritableBytes"; "other:copy"; "call:hasWritten"]%string /\
-  shape shrink_tree = ["havoc:other"; "call:other.ensureWritableBytes"; "call:toStringPiece"; "call:other.append"; "call:swap"]%string /\
-  shape swap_tree = ["call:buffer.swap"; "other:swap"; "other:swap"]%string /\
-  shape retrieveAsString_tree = ["assert"; "havoc:result"; "call:retrieve"; "other:return"]%string.
-Proof. repeat split; reflexivity. Qed.
+Definition shapes_of (l : list (string * list stmt)) : list (string * list string) :=
+  map (fun p => (fst p, shape (snd p))) l.
+
+(* PINNED SHAPES (review F-2).  The shape of EVERY generated tree -- which statements, in which order, in which
+   branch, every call with the number of its integer arguments, every local that is the bare result of a free call --
+   as it stands in the source today.  This list is committed by hand: when Buffer.h / Buffer.cc legitimately change
+   the structure of a member function the lemma below breaks and the list is RE-PINNED ON PURPOSE (copy the
+   `Eval vm_compute in (shapes_of all_trees)` output) after reading the diff.  For the ten functions with an
+   [exec] lemma above the pinned shape is redundant with the semantic tie except for the SOther entries; for the
+   other trees (one-line wrappers, readIntN = peekIntN then retrieveIntN, peekIntN = assert before memcpy,
+   find*(start) = asserts before the search, shrink, swap, the constructor's three asserts) it is the tie. *)
+Local Open Scope string_scope.
+Definition expected_shapes : list (string * list string) :=
+  [("Buffer", ["assert"; "assert"; "assert"]); ("append1", ["call:append/1"]);
+        ("append2_char", ["call:ensureWritableBytes/1"; "other:copy"; "call:hasWritten/1"]);
+        ("append2_void", ["call:append/1"]);
+        ("appendInt16", ["let:be16=hostToNetwork16/1"; "call:append/1"]);
+        ("appendInt32", ["let:be32=hostToNetwork32/1"; "call:append/1"]);
+        ("appendInt64", ["let:be64=hostToNetwork64/1"; "call:append/1"]); ("appendInt8", ["call:append/1"]);
+        ("begin", ["return"]); ("beginWrite", ["return"]);
+        ("ensureWritableBytes", ["if{"; "call:makeSpace/1"; "}else{"; "}"; "assert"]);
+        ("findCRLF0", ["havoc:crlf"; "return"]); ("findCRLF1", ["assert"; "assert"; "havoc:crlf"; "return"]);
+        ("findEOL0", ["havoc:eol"; "return"]); ("findEOL1", ["assert"; "assert"; "havoc:eol"; "return"]);
+        ("hasWritten", ["assert"; "set:writerIndex"]); ("internalCapacity", ["return"]);
+        ("makeSpace",
+         ["if{"; "call:buffer.resize/1"; "}else{"; "assert"; "let:readable"; "other:copy"; "set:readerIndex";
+          "set:writerIndex"; "assert"; "}"]); ("peek", ["return"]);
+        ("peekInt16", ["assert"; "havoc:be16"; "other:memcpy"; "return"]);
+        ("peekInt32", ["assert"; "havoc:be32"; "other:memcpy"; "return"]);
+        ("peekInt64", ["assert"; "havoc:be64"; "other:memcpy"; "return"]);
+        ("peekInt8", ["assert"; "havoc:x"; "ret"]);
+        ("prepend", ["assert"; "set:readerIndex"; "havoc:d"; "other:copy"]);
+        ("prependInt16", ["let:be16=hostToNetwork16/1"; "call:prepend/1"]);
+        ("prependInt32", ["let:be32=hostToNetwork32/1"; "call:prepend/1"]);
+        ("prependInt64", ["let:be64=hostToNetwork64/1"; "call:prepend/1"]);
+        ("prependInt8", ["call:prepend/1"]); ("prependableBytes", ["ret"]);
+        ("readFd",
+         ["havoc:extrabuf"; "havoc:vec"; "let:writable"; "other:assign"; "set:iov_len"; "other:assign";
+          "set:iov_len"; "let:iovcnt"; "let:n=readv/2"; "if{"; "other:__errno_location"; "}else{"; "if{";
+          "set:writerIndex"; "}else{"; "set:writerIndex"; "call:append/1"; "}"; "}"; "ret"]);
+        ("readInt16", ["call:peekInt16/0"; "havoc:result"; "call:retrieveInt16/0"; "ret"]);
+        ("readInt32", ["call:peekInt32/0"; "havoc:result"; "call:retrieveInt32/0"; "ret"]);
+        ("readInt64", ["call:peekInt64/0"; "havoc:result"; "call:retrieveInt64/0"; "ret"]);
+        ("readInt8", ["call:peekInt8/0"; "havoc:result"; "call:retrieveInt8/0"; "ret"]);
+        ("readableBytes", ["ret"]);
+        ("retrieve", ["assert"; "if{"; "set:readerIndex"; "}else{"; "call:retrieveAll/0"; "}"]);
+        ("retrieveAll", ["set:readerIndex"; "set:writerIndex"]);
+        ("retrieveAllAsString", ["call:retrieveAsString/1"; "return"]);
+        ("retrieveAsString", ["assert"; "havoc:result"; "call:retrieve/1"; "return"]);
+        ("retrieveInt16", ["call:retrieve/1"]); ("retrieveInt32", ["call:retrieve/1"]);
+        ("retrieveInt64", ["call:retrieve/1"]); ("retrieveInt8", ["call:retrieve/1"]);
+        ("retrieveUntil", ["assert"; "assert"; "call:retrieve/1"]);
+        ("shrink",
+         ["havoc:other"; "call:other.ensureWritableBytes/1"; "call:toStringPiece/0"; "call:other.append/0";
+          "call:swap/0"]);
+        ("swap",
+         ["call:buffer.swap/0"; "swap:readerIndex<->rhs.readerIndex"; "swap:writerIndex<->rhs.writerIndex"]);
+        ("toStringPiece", ["return"]); ("unwrite", ["assert"; "set:writerIndex"]); (
+        "writableBytes", ["ret"])].
+Local Close Scope string_scope.
+
+Lemma tree_shapes_all : shapes_of all_trees = expected_shapes.
+Proof. vm_compute. reflexivity. Qed.
+
+(* the integer arguments handed to sockets::readv: the descriptor, and the iovcnt computed just before (its value
+   is tied to the model's readFd_iovcnt by gen_readFd); the local n is the BARE result of that call (SLetCall:
+   an arithmetic expression around the call would make it SHavoc and break the pinned shape) *)
+Lemma gen_readv_args b B e :
+  let o := set_writable (Zn (writableBytes b)) (buf_obs b B e) in
+  readFd_readv0_arg0 o = o_fd e /\
+  readFd_readv0_arg2 (set_iovcnt (readFd_let_iovcnt o) o) = Zn (readFd_iovcnt b).
+Proof.
+  cbn zeta. pose proof (gen_readFd b 0 B e) as (_ & _ & IC & _). cbn zeta in IC.
+  unfold readFd_readv0_arg0, readFd_readv0_arg2. gl. split; [reflexivity|].
+  unfold readFd_let_iovcnt in *. revert IC. gl. intros IC. exact IC.
+Qed.
